@@ -1,8 +1,1558 @@
-//! C19 — not implemented yet
-use vcore::{Args, Check};
+//! C19 — Only verified immutables and manifest-vouched ancillary files get restored.
+//!
+//! The REAL `CardanoDatabaseClient::download_unpack` (built with the public `ClientBuilder`, real
+//! `HttpFileDownloader` + tar/zstd/gzip unpacker, real `AncillaryVerifier` configured with a harness-generated
+//! ancillary verification key) is driven against mirrors that are plain directories referenced by `file://`
+//! locations. Every archive is written by the harness with its own raw tar writer (so that it can also emit
+//! absolute / `..` paths, symlinks, hardlinks, GNU long names, truncated streams).
+//!
+//! Oracle (computed from the harness' own bookkeeping, never from the client):
+//!   after ∖ before ⊆  immutable trio files of the requested range
+//!                   ∪ the client's bootstrap markers (`clean` empty, `protocolMagicId` = magic of the network; only after Ok)
+//!                   ∪ (path, sha256) pairs of the manifest the harness' honest signer signed with the configured key
+//!                     (only when the ancillary option is on and the served manifest is the unaltered one)
+//!   + after an ancillary verification that must fail nothing carried by the ancillary archive is new in the target
+//!   + pre-existing user files are untouched (except legitimate overwrites by the three classes above)
+//!   + nothing changes outside the target directory (sentinel parent directory)
+//!   + honest downloads succeed and deliver exactly the expected files (positive control).
+
+use std::collections::{BTreeMap, BTreeSet};
+use std::io::Write;
+use std::path::{Path, PathBuf};
+use std::sync::Arc;
+
+use mithril_cardano_node_internal_database::entities::AncillaryFilesManifest;
+use mithril_client::{AggregatorDiscoveryType, ClientBuilder, GenesisVerificationKey};
+use mithril_client::cardano_database_client::{CardanoDatabaseClient, DownloadUnpackOptions, ImmutableFileRange};
+use mithril_client::feedback::FeedbackSender;
+use mithril_client::file_downloader::HttpFileDownloader;
+use mithril_common::crypto_helper::{ManifestSigner, ManifestVerifierSecretKey};
+use mithril_common::messages::CardanoDatabaseSnapshotMessage;
+use proptest::prelude::*;
+use serde::{Deserialize, Serialize};
+use sha2::{Digest, Sha256};
+use vcore::util::Scratch;
+use vcore::{Args, Check, Report, catch, pick_index};
+
+// ------------------------------------------------------------------------------------------------
+// case model
+// ------------------------------------------------------------------------------------------------
+
+#[derive(Clone, Debug, Serialize, Deserialize, PartialEq)]
+enum RangeSpec {
+    Full,
+    From(u16),
+    UpTo(u16),
+    Inner(u16, u16),
+    Invalid,
+}
+
+/// pre-existing user files in the target directory
+#[derive(Clone, Debug, Serialize, Deserialize, PartialEq, Eq, PartialOrd, Ord)]
+enum Pre {
+    TopNote,
+    UserDir,
+    ImmInRange,
+    ImmOutside,
+    ImmOdd,
+    LedgerOld,
+    VolatileOld,
+    MarkerClean,
+    MarkerMagic,
+}
+
+/// out-of-policy entries a mirror can put into an *immutable* archive
+#[derive(Clone, Debug, Serialize, Deserialize, PartialEq)]
+enum Extra {
+    LedgerFlat,
+    LedgerNested,
+    Volatile,
+    TopFile,
+    TopDirFile,
+    NestedImm,
+    ImmOdd,
+    MarkerClean,
+    MarkerMagic,
+    MarkerDir,
+    ManifestName,
+    /// `immutable/NNNNN.<ext>` for an arbitrary number in 0..=beacon+3
+    ImmNumber(u16, u8),
+    /// same path as the i-th file of the honest ancillary manifest, other content
+    ShadowVouched(u16),
+    AbsWorld,
+    DotDot,
+    DotDotDeep,
+    SymlinkOut,
+    SymlinkNamedImm,
+    SymlinkDirThenWrite,
+    SymlinkLedgerDivert,
+    HardlinkUser,
+}
+
+#[derive(Clone, Debug, Serialize, Deserialize, PartialEq)]
+struct ImmExtra {
+    arch: u16,
+    kind: Extra,
+    first: bool,
+}
+
+/// alterations of the ancillary archive / manifest after the honest signer signed it
+#[derive(Clone, Debug, Serialize, Deserialize, PartialEq)]
+enum Alter {
+    None,
+    ContentChanged(u16),
+    ContentChangedHashUpdated(u16),
+    EntryAdded,
+    EntryRemoved(u16),
+    PathRenamed(u16),
+    SigFlip(u16),
+    SigRemoved,
+    /// whole manifest re-signed with another key (true: after adding an evil file)
+    SigOtherKey(bool),
+    ManifestMissing,
+    ManifestGarbage,
+    FileMissing(u16),
+    /// (k1,v1),(k2,v2) -> (k1+v1+k2, v2): same concatenation of keys and values
+    MergeAdjacent(u16),
+}
+
+/// unlisted entries in the ancillary archive
+#[derive(Clone, Debug, Serialize, Deserialize, PartialEq)]
+enum AncExtra {
+    LedgerEvil,
+    Volatile,
+    Top,
+    MarkerClean,
+    ImmInRange,
+    Abs,
+    DotDot,
+    SymlinkOut,
+    NestedManifest,
+}
+
+#[derive(Clone, Debug, Serialize, Deserialize, PartialEq)]
+struct AncSpec {
+    layout: u8,
+    alter: Alter,
+    extras: Vec<AncExtra>,
+    manifest_first: bool,
+}
+
+#[derive(Clone, Debug, Serialize, Deserialize, PartialEq)]
+enum Fault {
+    MissingImm(u16),
+    CorruptImm(u16, u16),
+    TruncTarImm(u16),
+    MissingAnc,
+    CorruptAnc(u16),
+    TruncTarAnc,
+    /// a pre-existing directory sits where the first listed ledger file has to be moved
+    MoveBlockedByDir,
+    /// a pre-existing regular file named `ledger`
+    LedgerIsFile,
+}
+
+#[derive(Clone, Debug, Serialize, Deserialize)]
+struct Case {
+    seed: u64,
+    beacon: u8,
+    range: RangeSpec,
+    include_ancillary: bool,
+    allow_override: bool,
+    zstd: bool,
+    parallel: u8,
+    network: u8,
+    /// 0: one mirror; 1: second mirror with the same archives but no transport fault; 2: second mirror with
+    /// fully honest immutable archives
+    mirror2: u8,
+    pre: Vec<Pre>,
+    imm_extras: Vec<ImmExtra>,
+    anc: AncSpec,
+    faults: Vec<Fault>,
+}
+
+// ------------------------------------------------------------------------------------------------
+// deterministic content, hashing, listing
+// ------------------------------------------------------------------------------------------------
+
+fn sha_hex(data: &[u8]) -> String {
+    hex::encode(Sha256::digest(data))
+}
+
+fn content(seed: u64, tag: &str, path: &str) -> Vec<u8> {
+    let mut h = Sha256::new();
+    h.update(seed.to_le_bytes());
+    h.update(tag.as_bytes());
+    h.update([0u8]);
+    h.update(path.as_bytes());
+    let d = h.finalize();
+    let len = 24 + (d[0] as usize % 200);
+    let mut out = Vec::with_capacity(len + 32);
+    let mut ctr = 0u32;
+    while out.len() < len {
+        let mut h2 = Sha256::new();
+        h2.update(d);
+        h2.update(ctr.to_le_bytes());
+        out.extend_from_slice(&h2.finalize());
+        ctr += 1;
+    }
+    out.truncate(len);
+    out
+}
+
+fn trio(n: u64) -> [String; 3] {
+    [format!("{n:05}.chunk"), format!("{n:05}.primary"), format!("{n:05}.secondary")]
+}
+
+const EXTS: [&str; 3] = ["chunk", "primary", "secondary"];
+
+#[derive(Clone, Debug, PartialEq, Eq)]
+enum Node {
+    File(String),
+    Symlink(String),
+    Dir,
+    Other,
+}
+
+fn walk_into(root: &Path, rel: &str, out: &mut BTreeMap<String, Node>) {
+    let dir = if rel.is_empty() { root.to_path_buf() } else { root.join(rel) };
+    let Ok(rd) = std::fs::read_dir(&dir) else { return };
+    let mut names: Vec<_> = rd.flatten().map(|e| e.file_name()).collect();
+    names.sort();
+    for name in names {
+        let name_s = name.to_string_lossy().to_string();
+        let child_rel = if rel.is_empty() { name_s.clone() } else { format!("{rel}/{name_s}") };
+        let p = dir.join(&name);
+        let Ok(md) = std::fs::symlink_metadata(&p) else { continue };
+        let ft = md.file_type();
+        if ft.is_symlink() {
+            let t = std::fs::read_link(&p).map(|t| t.to_string_lossy().to_string()).unwrap_or_default();
+            out.insert(child_rel, Node::Symlink(t));
+        } else if ft.is_dir() {
+            out.insert(child_rel.clone(), Node::Dir);
+            walk_into(root, &child_rel, out);
+        } else if ft.is_file() {
+            let data = std::fs::read(&p).unwrap_or_default();
+            out.insert(child_rel, Node::File(sha_hex(&data)));
+        } else {
+            out.insert(child_rel, Node::Other);
+        }
+    }
+}
+
+fn walk(root: &Path) -> BTreeMap<String, Node> {
+    let mut m = BTreeMap::new();
+    walk_into(root, "", &mut m);
+    m
+}
+
+// ------------------------------------------------------------------------------------------------
+// raw tar writer
+// ------------------------------------------------------------------------------------------------
+
+#[derive(Clone, Debug)]
+enum EKind {
+    File(Vec<u8>),
+    Symlink(String),
+    Hardlink(String),
+}
+
+#[derive(Clone, Debug)]
+struct TEntry {
+    path: String,
+    kind: EKind,
+}
+
+fn raw_header(name: &[u8], et: tar::EntryType, size: u64, link: &[u8]) -> tar::Header {
+    let mut h = tar::Header::new_gnu();
+    {
+        let old = h.as_old_mut();
+        let n = name.len().min(100);
+        old.name[..n].copy_from_slice(&name[..n]);
+        let l = link.len().min(100);
+        old.linkname[..l].copy_from_slice(&link[..l]);
+    }
+    h.set_mode(0o644);
+    h.set_uid(0);
+    h.set_gid(0);
+    h.set_mtime(1_700_000_000);
+    h.set_size(size);
+    h.set_entry_type(et);
+    h.set_cksum();
+    h
+}
+
+fn push_block(out: &mut Vec<u8>, h: &tar::Header, data: &[u8]) {
+    out.extend_from_slice(h.as_bytes());
+    out.extend_from_slice(data);
+    let pad = (512 - data.len() % 512) % 512;
+    out.extend(std::iter::repeat_n(0u8, pad));
+}
+
+/// returns the tar bytes and, for each entry, the offset at which its header starts
+fn write_tar(entries: &[TEntry]) -> (Vec<u8>, Vec<usize>) {
+    let mut out = Vec::new();
+    let mut offsets = Vec::new();
+    for e in entries {
+        offsets.push(out.len());
+        let name = e.path.as_bytes();
+        let (et, link, data): (tar::EntryType, &[u8], &[u8]) = match &e.kind {
+            EKind::File(d) => (tar::EntryType::Regular, &[], d.as_slice()),
+            EKind::Symlink(t) => (tar::EntryType::Symlink, t.as_bytes(), &[]),
+            EKind::Hardlink(t) => (tar::EntryType::Link, t.as_bytes(), &[]),
+        };
+        if link.len() > 100 {
+            let mut d = link.to_vec();
+            d.push(0);
+            let h = raw_header(b"././@LongLink", tar::EntryType::GNULongLink, d.len() as u64, &[]);
+            push_block(&mut out, &h, &d);
+        }
+        if name.len() > 100 {
+            let mut d = name.to_vec();
+            d.push(0);
+            let h = raw_header(b"././@LongLink", tar::EntryType::GNULongName, d.len() as u64, &[]);
+            push_block(&mut out, &h, &d);
+        }
+        let h = raw_header(name, et, data.len() as u64, link);
+        push_block(&mut out, &h, data);
+    }
+    out.extend(std::iter::repeat_n(0u8, 1024));
+    (out, offsets)
+}
+
+fn compress(data: &[u8], zstd_algo: bool) -> Vec<u8> {
+    if zstd_algo {
+        zstd::encode_all(data, 1).expect("zstd")
+    } else {
+        let mut enc = flate2::write::GzEncoder::new(Vec::new(), flate2::Compression::fast());
+        enc.write_all(data).expect("gz");
+        enc.finish().expect("gz")
+    }
+}
+
+/// where tar's unpack would place the entry relative to the unpack directory (None: skipped because of `..`)
+fn normalize(path: &str) -> Option<String> {
+    let mut parts = vec![];
+    for c in path.split('/') {
+        match c {
+            "" | "." => {}
+            ".." => return None,
+            x => parts.push(x),
+        }
+    }
+    if parts.is_empty() { None } else { Some(parts.join("/")) }
+}
+
+// ------------------------------------------------------------------------------------------------
+// world construction
+// ------------------------------------------------------------------------------------------------
+
+#[derive(Clone, Copy, Debug, PartialEq, Eq)]
+enum Origin {
+    Imm,
+    Anc,
+}
+
+struct World {
+    target: PathBuf,
+    world: PathBuf,
+    msg: CardanoDatabaseSnapshotMessage,
+    range: ImmutableFileRange,
+    /// resolved requested range (None: invalid request)
+    requested: Option<(u64, u64)>,
+    options: DownloadUnpackOptions,
+    /// (path, sha256) pairs the honest signer signed and that are served unaltered
+    vouched: BTreeSet<(String, String)>,
+    /// honest content hash by path for the positive control
+    honest: BTreeMap<String, String>,
+    /// target-relative path -> which kind of archive carries it
+    carried: BTreeMap<String, Origin>,
+    anc_must_fail: bool,
+    anc_listed: Vec<String>,
+    ancillary_vk: String,
+    genesis_vk: String,
+    magic: Option<&'static str>,
+    splice_preserved: bool,
+}
+
+fn resolve_range(spec: &RangeSpec, beacon: u64) -> (ImmutableFileRange, Option<(u64, u64)>) {
+    let n = beacon as usize + 1;
+    match spec {
+        RangeSpec::Full => (ImmutableFileRange::Full, Some((0, beacon))),
+        RangeSpec::From(a) => {
+            let a = pick_index(*a, n) as u64;
+            (ImmutableFileRange::From(a), Some((a, beacon)))
+        }
+        RangeSpec::UpTo(b) => {
+            let b = pick_index(*b, n) as u64;
+            (ImmutableFileRange::UpTo(b), Some((0, b)))
+        }
+        RangeSpec::Inner(a, b) => {
+            let a = pick_index(*a, n) as u64;
+            let b = pick_index(*b, n) as u64;
+            let (lo, hi) = (a.min(b), a.max(b));
+            (ImmutableFileRange::Range(lo, hi), Some((lo, hi)))
+        }
+        RangeSpec::Invalid => (ImmutableFileRange::Range(beacon + 1, beacon + 3), None),
+    }
+}
+
+fn signer_from_seed(seed: u64, tag: &str) -> ManifestSigner {
+    let mut h = Sha256::new();
+    h.update(seed.to_le_bytes());
+    h.update(tag.as_bytes());
+    let sk = ManifestVerifierSecretKey::from_bytes(&h.finalize()).expect("ed25519 secret key from 32 bytes");
+    ManifestSigner::from_secret_key(sk)
+}
+
+/// the byte string the aggregator signs: sha256 over the concatenation of path and hash of every entry (sorted)
+fn manifest_message(data: &BTreeMap<String, String>) -> Vec<u8> {
+    let mut h = Sha256::new();
+    for (k, v) in data {
+        h.update(k.as_bytes());
+        h.update(v.as_bytes());
+    }
+    h.finalize().to_vec()
+}
+
+fn manifest_json(data: &BTreeMap<String, String>, signature: Option<String>) -> Vec<u8> {
+    let mut m = serde_json::Map::new();
+    m.insert("data".into(), serde_json::to_value(data).unwrap());
+    if let Some(s) = signature {
+        m.insert("signature".into(), serde_json::Value::String(s));
+    }
+    serde_json::to_vec(&serde_json::Value::Object(m)).unwrap()
+}
+
+fn honest_ancillary_paths(layout: u8, beacon: u64) -> Vec<String> {
+    let mut v: Vec<String> = trio(beacon + 1).iter().map(|f| format!("immutable/{f}")).collect();
+    let slot = 1000 * (beacon + 1) + 37;
+    match layout % 3 {
+        0 => v.push(format!("ledger/{slot}")),
+        1 => {
+            v.push(format!("ledger/{}", slot - 500));
+            v.push(format!("ledger/{slot}"));
+        }
+        _ => {
+            v.push(format!("ledger/{slot}/meta"));
+            v.push(format!("ledger/{slot}/state"));
+            v.push(format!("ledger/{slot}/tables/tvar"));
+        }
+    }
+    v
+}
+
+fn ext_name(e: u8) -> &'static str {
+    EXTS[e as usize % 3]
+}
+
+fn put(dir: &Path, rel: &str, data: &[u8]) {
+    let p = dir.join(rel);
+    if let Some(parent) = p.parent() {
+        std::fs::create_dir_all(parent).expect("mkdir");
+    }
+    std::fs::write(&p, data).expect("write");
+}
+
+fn in_range(req: Option<(u64, u64)>, n: u64) -> bool {
+    matches!(req, Some((lo, hi)) if lo <= n && n <= hi)
+}
+
+fn build_world(c: &Case, root: &Path, rep: &mut Report) -> World {
+    let beacon = c.beacon.clamp(1, 6) as u64;
+    let world = root.join("world");
+    let target = world.join("db");
+    let mirrors = [root.join("mirror0"), root.join("mirror1")];
+    std::fs::create_dir_all(&target).unwrap();
+    for m in &mirrors {
+        std::fs::create_dir_all(m).unwrap();
+    }
+    put(&world, "secret", b"top secret outside of the database directory");
+    put(&world, "ldir/keep", b"a directory outside of the database directory");
+    let world_s = world.to_string_lossy().to_string();
+
+    let (range, requested) = resolve_range(&c.range, beacon);
+    let req_numbers: Vec<u64> = match requested {
+        Some((lo, hi)) => (lo..=hi).collect(),
+        None => vec![],
+    };
+    let anc_paths = honest_ancillary_paths(c.anc.layout, beacon);
+
+    // ---- pre-existing user files -------------------------------------------------------------
+    let mut pre: BTreeSet<Pre> = c.pre.iter().cloned().collect();
+    if c.imm_extras.iter().any(|e| e.kind == Extra::HardlinkUser) {
+        pre.insert(Pre::TopNote);
+    }
+    for p in &pre {
+        let rel = match p {
+            Pre::TopNote => "notes.txt".to_string(),
+            Pre::UserDir => "mydata/a.bin".to_string(),
+            Pre::ImmInRange => format!("immutable/{}", trio(req_numbers.first().copied().unwrap_or(0))[0]),
+            Pre::ImmOutside => {
+                let n = (0..=beacon + 2).find(|n| !in_range(requested, *n)).unwrap_or(beacon + 2);
+                format!("immutable/{}", trio(n)[1])
+            }
+            Pre::ImmOdd => "immutable/my-notes.txt".to_string(),
+            Pre::LedgerOld => "ledger/42".to_string(),
+            Pre::VolatileOld => "volatile/blocks-0.dat".to_string(),
+            Pre::MarkerClean => "clean".to_string(),
+            Pre::MarkerMagic => "protocolMagicId".to_string(),
+        };
+        put(&target, &rel, &content(c.seed, "user", &rel));
+        rep.label("pre-existing-files");
+    }
+    for f in &c.faults {
+        match f {
+            Fault::MoveBlockedByDir => {
+                let first_ledger = anc_paths.iter().find(|p| p.starts_with("ledger/")).unwrap();
+                put(&target, &format!("{first_ledger}/occupied"), b"user directory in the way");
+            }
+            Fault::LedgerIsFile => {
+                if !target.join("ledger").exists() {
+                    put(&target, "ledger", b"a regular file named ledger");
+                }
+            }
+            _ => {}
+        }
+    }
+
+    // ---- immutable archives ------------------------------------------------------------------
+    let mut carried: BTreeMap<String, Origin> = BTreeMap::new();
+    let mut honest: BTreeMap<String, String> = BTreeMap::new();
+    let mut extras_by_arch: BTreeMap<u64, Vec<&ImmExtra>> = BTreeMap::new();
+    if !req_numbers.is_empty() {
+        for e in &c.imm_extras {
+            let n = req_numbers[pick_index(e.arch, req_numbers.len())];
+            extras_by_arch.entry(n).or_default().push(e);
+        }
+    }
+    let ext = if c.zstd { "tar.zst" } else { "tar.gz" };
+    for n in 0..=beacon {
+        let mut honest_entries = vec![];
+        for f in trio(n) {
+            let rel = format!("immutable/{f}");
+            let data = content(c.seed, "imm", &rel);
+            if in_range(requested, n) {
+                honest.insert(rel.clone(), sha_hex(&data));
+            }
+            honest_entries.push(TEntry { path: rel, kind: EKind::File(data) });
+        }
+        let mut first = vec![];
+        let mut last = vec![];
+        for e in extras_by_arch.get(&n).cloned().unwrap_or_default() {
+            let mut ents: Vec<TEntry> = vec![];
+            let evil = |rel: &str| TEntry { path: rel.to_string(), kind: EKind::File(content(c.seed, "evil", rel)) };
+            match &e.kind {
+                Extra::LedgerFlat => {
+                    ents.push(evil("ledger/4242"));
+                    rep.label("imm-extra:ledger");
+                }
+                Extra::LedgerNested => {
+                    ents.push(evil("ledger/4242/state"));
+                    rep.label("imm-extra:ledger");
+                }
+                Extra::Volatile => {
+                    ents.push(evil("volatile/blocks-9.dat"));
+                    rep.label("imm-extra:volatile");
+                }
+                Extra::TopFile => {
+                    ents.push(evil("evil.txt"));
+                    rep.label("imm-extra:top-level");
+                }
+                Extra::TopDirFile => {
+                    ents.push(evil("stuff/evil.bin"));
+                    rep.label("imm-extra:top-level");
+                }
+                Extra::NestedImm => {
+                    ents.push(evil("immutable/x/y"));
+                    rep.label("imm-extra:nested-immutable");
+                }
+                Extra::ImmOdd => {
+                    ents.push(evil(&format!("immutable/{}.bak", trio(n)[0])));
+                    rep.label("imm-extra:nested-immutable");
+                }
+                Extra::MarkerClean => {
+                    ents.push(evil("clean"));
+                    rep.label("imm-extra:marker");
+                }
+                Extra::MarkerMagic => {
+                    ents.push(evil("protocolMagicId"));
+                    rep.label("imm-extra:marker");
+                }
+                Extra::MarkerDir => {
+                    ents.push(evil("clean/evil"));
+                    rep.label("imm-extra:marker");
+                }
+                Extra::ManifestName => {
+                    ents.push(evil("ancillary_manifest.json"));
+                    rep.label("imm-extra:top-level");
+                }
+                Extra::ImmNumber(raw, x) => {
+                    let m = pick_index(*raw, beacon as usize + 4) as u64;
+                    ents.push(evil(&format!("immutable/{m:05}.{}", ext_name(*x))));
+                    if in_range(requested, m) {
+                        rep.label("imm-extra:other-number-in-range");
+                    } else if m <= beacon {
+                        rep.label("imm-extra:out-of-range");
+                    } else {
+                        rep.label("imm-extra:beyond-beacon");
+                    }
+                }
+                Extra::ShadowVouched(i) => {
+                    let p = &anc_paths[pick_index(*i, anc_paths.len())];
+                    ents.push(evil(p));
+                    rep.label("imm-extra:shadows-ancillary-file");
+                }
+                Extra::AbsWorld => {
+                    ents.push(evil(&format!("{world_s}/abs_evil")));
+                    rep.label("imm-extra:abs-or-dotdot");
+                }
+                Extra::DotDot => {
+                    ents.push(evil("../dd_evil"));
+                    rep.label("imm-extra:abs-or-dotdot");
+                }
+                Extra::DotDotDeep => {
+                    ents.push(evil("immutable/../../dd_evil2"));
+                    rep.label("imm-extra:abs-or-dotdot");
+                }
+                Extra::SymlinkOut => {
+                    ents.push(TEntry { path: "link_out".into(), kind: EKind::Symlink(format!("{world_s}/secret")) });
+                    rep.label("imm-extra:link");
+                }
+                Extra::SymlinkNamedImm => {
+                    ents.push(TEntry {
+                        path: format!("immutable/{}", trio(n)[2]),
+                        kind: EKind::Symlink(format!("{world_s}/secret")),
+                    });
+                    rep.label("imm-extra:link");
+                }
+                Extra::SymlinkDirThenWrite => {
+                    ents.push(TEntry { path: "immutable/sl".into(), kind: EKind::Symlink(world_s.clone()) });
+                    ents.push(evil("immutable/sl/through_evil"));
+                    rep.label("imm-extra:link");
+                }
+                Extra::SymlinkLedgerDivert => {
+                    ents.push(TEntry { path: "ledger".into(), kind: EKind::Symlink(format!("{world_s}/ldir")) });
+                    rep.label("imm-extra:link");
+                }
+                Extra::HardlinkUser => {
+                    ents.push(TEntry {
+                        path: format!("immutable/{}", trio(n)[2]),
+                        kind: EKind::Hardlink("notes.txt".into()),
+                    });
+                    rep.label("imm-extra:link");
+                }
+            }
+            for t in &ents {
+                if let Some(p) = normalize(&t.path) {
+                    carried.insert(p, Origin::Imm);
+                }
+            }
+            if e.first { first.extend(ents) } else { last.extend(ents) }
+        }
+        let mut entries = first;
+        entries.extend(honest_entries.clone());
+        entries.extend(last);
+        let (tar_bytes, offsets) = write_tar(&entries);
+        let mut bytes0 = Some(compress(&tar_bytes, c.zstd));
+        let clean_bytes = bytes0.clone().unwrap();
+        for f in &c.faults {
+            let hit = |j: &u16| !req_numbers.is_empty() && req_numbers[pick_index(*j, req_numbers.len())] == n;
+            match f {
+                Fault::MissingImm(j) if hit(j) => bytes0 = None,
+                Fault::CorruptImm(j, cut) if hit(j) => {
+                    let full = compress(&tar_bytes, c.zstd);
+                    let keep = 1 + pick_index(*cut, full.len().saturating_sub(2).max(1));
+                    bytes0 = Some(full[..keep].to_vec());
+                }
+                Fault::TruncTarImm(j) if hit(j) => {
+                    // cut in the middle of the data of the last entry (header present, data short)
+                    let last = *offsets.last().unwrap();
+                    let keep = (last + 512 + 7).min(tar_bytes.len());
+                    bytes0 = Some(compress(&tar_bytes[..keep], c.zstd));
+                }
+                _ => {}
+            }
+        }
+        if let Some(b) = &bytes0 {
+            std::fs::write(mirrors[0].join(format!("{n:05}.{ext}")), b).unwrap();
+        }
+        match c.mirror2 {
+            1 => std::fs::write(mirrors[1].join(format!("{n:05}.{ext}")), &clean_bytes).unwrap(),
+            2 => {
+                let (t, _) = write_tar(&honest_entries);
+                std::fs::write(mirrors[1].join(format!("{n:05}.{ext}")), compress(&t, c.zstd)).unwrap()
+            }
+            _ => {}
+        }
+    }
+
+    // ---- ancillary archive -------------------------------------------------------------------
+    // a small fixed family of key pairs (the client for each configured key is memoized per worker thread)
+    let key_ix = c.seed % 4;
+    let signer = signer_from_seed(key_ix, "ancillary-key");
+    let other_signer = signer_from_seed((key_ix + 1) % 4, "ancillary-key");
+    let ancillary_vk = signer.verification_key().to_json_hex().expect("vk hex");
+    let genesis_vk = signer_from_seed(0, "genesis").verification_key().to_json_hex().expect("vk hex");
+
+    let mut files: BTreeMap<String, Vec<u8>> = BTreeMap::new();
+    for p in &anc_paths {
+        files.insert(p.clone(), content(c.seed, "anc", p));
+    }
+    let signed_data: BTreeMap<String, String> = files.iter().map(|(k, v)| (k.clone(), sha_hex(v))).collect();
+    let signature = signer.sign(&manifest_message(&signed_data)).to_bytes_hex().expect("sig hex");
+    let mut data = signed_data.clone();
+    let mut sig: Option<String> = Some(signature.clone());
+    let mut manifest_override: Option<Option<Vec<u8>>> = None;
+    let mut splice_preserved = false;
+    let keys: Vec<String> = signed_data.keys().cloned().collect();
+    match &c.anc.alter {
+        Alter::None => {}
+        Alter::ContentChanged(i) => {
+            let k = &keys[pick_index(*i, keys.len())];
+            files.insert(k.clone(), content(c.seed, "evil", k));
+            rep.label("anc-alter:content");
+            if k.matches('/').count() >= 2 {
+                rep.label("anc-alter:content-in-subdir");
+            }
+        }
+        Alter::ContentChangedHashUpdated(i) => {
+            let k = &keys[pick_index(*i, keys.len())];
+            let evil = content(c.seed, "evil", k);
+            data.insert(k.clone(), sha_hex(&evil));
+            files.insert(k.clone(), evil);
+            rep.label("anc-alter:content");
+        }
+        Alter::EntryAdded => {
+            let k = "ledger/evil_state".to_string();
+            let evil = content(c.seed, "evil", &k);
+            data.insert(k.clone(), sha_hex(&evil));
+            files.insert(k, evil);
+            rep.label("anc-alter:entries");
+        }
+        Alter::EntryRemoved(i) => {
+            let k = &keys[pick_index(*i, keys.len())];
+            data.remove(k);
+            rep.label("anc-alter:entries");
+        }
+        Alter::PathRenamed(i) => {
+            let k = &keys[pick_index(*i, keys.len())];
+            let nk = format!("{k}.moved");
+            let v = data.remove(k).unwrap();
+            data.insert(nk.clone(), v);
+            let f = files.remove(k).unwrap();
+            files.insert(nk, f);
+            rep.label("anc-alter:entries");
+        }
+        Alter::SigFlip(bit) => {
+            let mut raw = hex::decode(&signature).unwrap();
+            let b = pick_index(*bit, raw.len() * 8);
+            raw[b / 8] ^= 1 << (b % 8);
+            sig = Some(hex::encode(raw));
+            rep.label("anc-alter:signature");
+        }
+        Alter::SigRemoved => {
+            sig = None;
+            rep.label("anc-alter:signature");
+        }
+        Alter::SigOtherKey(tamper) => {
+            if *tamper {
+                let k = "ledger/evil_state".to_string();
+                let evil = content(c.seed, "evil", &k);
+                data.insert(k.clone(), sha_hex(&evil));
+                files.insert(k, evil);
+            }
+            sig = Some(other_signer.sign(&manifest_message(&data)).to_bytes_hex().unwrap());
+            rep.label("anc-alter:signature");
+        }
+        Alter::ManifestMissing => {
+            manifest_override = Some(None);
+            rep.label("anc-alter:missing-manifest");
+        }
+        Alter::ManifestGarbage => {
+            manifest_override = Some(Some(b"{\"data\": {\"ledger/1\": 12, ".to_vec()));
+            rep.label("anc-alter:missing-manifest");
+        }
+        Alter::FileMissing(i) => {
+            let k = &keys[pick_index(*i, keys.len())];
+            files.remove(k);
+            rep.label("anc-alter:entries");
+        }
+        Alter::MergeAdjacent(i) => {
+            // prefer the last pairs (ledger files), which the immutable clean-up does not touch
+            let pairs = keys.len() - 1;
+            let ix = pairs - 1 - pick_index(*i, pairs);
+            let (k1, k2) = (keys[ix].clone(), keys[ix + 1].clone());
+            let v1 = data.remove(&k1).unwrap();
+            let v2 = data.remove(&k2).unwrap();
+            let nk = format!("{k1}{v1}{k2}");
+            data.insert(nk.clone(), v2);
+            files.remove(&k1);
+            let f2 = files.remove(&k2).unwrap();
+            files.insert(nk, f2);
+            splice_preserved = manifest_message(&data) == manifest_message(&signed_data);
+            rep.label("anc-alter:entries");
+            if splice_preserved {
+                rep.label("anc-alter:splice-same-signed-bytes");
+            }
+        }
+    }
+    let anc_altered = c.anc.alter != Alter::None;
+    let manifest_bytes: Option<Vec<u8>> = match manifest_override {
+        Some(o) => o,
+        None => {
+            if anc_altered {
+                Some(manifest_json(&data, sig.clone()))
+            } else {
+                // the honest path serializes the real entity, exactly like the aggregator does
+                let m = AncillaryFilesManifest::new(
+                    signed_data.iter().map(|(k, v)| (PathBuf::from(k), v.clone())).collect(),
+                    signature.as_str().try_into().expect("signature decodes"),
+                );
+                Some(serde_json::to_vec(&m).unwrap())
+            }
+        }
+    };
+    let mut anc_entries: Vec<TEntry> = vec![];
+    if c.anc.manifest_first {
+        if let Some(m) = &manifest_bytes {
+            anc_entries.push(TEntry { path: "ancillary_manifest.json".into(), kind: EKind::File(m.clone()) });
+        }
+    }
+    for (k, v) in &files {
+        anc_entries.push(TEntry { path: k.clone(), kind: EKind::File(v.clone()) });
+    }
+    for x in &c.anc.extras {
+        let evil = |rel: &str| TEntry { path: rel.to_string(), kind: EKind::File(content(c.seed, "evil-anc", rel)) };
+        rep.label("anc-extra");
+        match x {
+            AncExtra::LedgerEvil => anc_entries.push(evil("ledger/evil_unlisted")),
+            AncExtra::Volatile => anc_entries.push(evil("volatile/blocks-7.dat")),
+            AncExtra::Top => anc_entries.push(evil("evil_anc.txt")),
+            AncExtra::MarkerClean => anc_entries.push(evil("clean")),
+            AncExtra::ImmInRange => {
+                let n = req_numbers.first().copied().unwrap_or(0);
+                anc_entries.push(evil(&format!("immutable/{}", trio(n)[0])))
+            }
+            AncExtra::Abs => anc_entries.push(evil(&format!("{world_s}/abs_evil_anc"))),
+            AncExtra::DotDot => {
+                anc_entries.push(evil("../ledger/dd_evil_anc"));
+                anc_entries.push(evil("../../dd_evil_anc2"));
+            }
+            AncExtra::SymlinkOut => {
+                anc_entries.push(TEntry { path: "ledger/link_anc".into(), kind: EKind::Symlink(format!("{world_s}/secret")) })
+            }
+            AncExtra::NestedManifest => anc_entries.push(evil("ledger/ancillary_manifest.json")),
+        }
+    }
+    if !c.anc.manifest_first {
+        if let Some(m) = &manifest_bytes {
+            anc_entries.push(TEntry { path: "ancillary_manifest.json".into(), kind: EKind::File(m.clone()) });
+        }
+    }
+    for t in &anc_entries {
+        if let Some(p) = normalize(&t.path) {
+            carried.entry(p).or_insert(Origin::Anc);
+        }
+    }
+    let (anc_tar, anc_offsets) = write_tar(&anc_entries);
+    let anc_clean = compress(&anc_tar, c.zstd);
+    let mut anc0 = Some(anc_clean.clone());
+    for f in &c.faults {
+        match f {
+            Fault::MissingAnc => anc0 = None,
+            Fault::CorruptAnc(cut) => {
+                let keep = 1 + pick_index(*cut, anc_clean.len().saturating_sub(2).max(1));
+                anc0 = Some(anc_clean[..keep].to_vec());
+            }
+            Fault::TruncTarAnc => {
+                let last = *anc_offsets.last().unwrap();
+                let keep = (last + 512 + 7).min(anc_tar.len());
+                anc0 = Some(compress(&anc_tar[..keep], c.zstd));
+            }
+            _ => {}
+        }
+    }
+    if let Some(b) = &anc0 {
+        std::fs::write(mirrors[0].join(format!("ancillary.{ext}")), b).unwrap();
+    }
+    if c.mirror2 != 0 {
+        std::fs::write(mirrors[1].join(format!("ancillary.{ext}")), &anc_clean).unwrap();
+    }
+
+    // ---- message -----------------------------------------------------------------------------
+    let algo = if c.zstd { "zstandard" } else { "gzip" };
+    let n_mirrors = if c.mirror2 != 0 { 2 } else { 1 };
+    let imm_locations: Vec<serde_json::Value> = (0..n_mirrors)
+        .map(|i| {
+            serde_json::json!({"type": "cloud_storage",
+                "uri": {"Template": format!("file://{}/{{immutable_file_number}}.{ext}", mirrors[i].display())},
+                "compression_algorithm": algo})
+        })
+        .collect();
+    let anc_locations: Vec<serde_json::Value> = (0..n_mirrors)
+        .map(|i| {
+            serde_json::json!({"type": "cloud_storage",
+                "uri": format!("file://{}/ancillary.{ext}", mirrors[i].display()),
+                "compression_algorithm": algo})
+        })
+        .collect();
+    let (network, magic) = match c.network % 4 {
+        0 => ("mainnet", Some("764824073")),
+        1 => ("preprod", Some("1")),
+        2 => ("preview", Some("2")),
+        _ => ("private", None),
+    };
+    let msg: CardanoDatabaseSnapshotMessage = serde_json::from_value(serde_json::json!({
+        "hash": "c19-harness-snapshot",
+        "merkle_root": "c8224920b9f5ad7377594eb8a15f34f08eb3103cc5241d57cafc5638403ec7c6",
+        "network": network,
+        "beacon": {"epoch": 123, "immutable_file_number": beacon},
+        "certificate_hash": "f6c01b373bafc4e039844071d5da3ace4a9c0745b9e9560e3e2af01823e9abfb",
+        "total_db_size_uncompressed": 100000,
+        "digests": {"size_uncompressed": 1024, "locations": [{"type": "aggregator", "uri": "http://127.0.0.1:9/digests"}]},
+        "immutables": {"average_size_uncompressed": 2048, "locations": imm_locations},
+        "ancillary": {"size_uncompressed": 4096, "locations": anc_locations},
+        "cardano_node_version": "10.4.1",
+        "created_at": "2025-01-01T00:00:00Z"
+    }))
+    .expect("snapshot message decodes");
+
+    let vouched: BTreeSet<(String, String)> = if c.include_ancillary && !anc_altered {
+        signed_data.iter().map(|(k, v)| (k.clone(), v.clone())).collect()
+    } else {
+        BTreeSet::new()
+    };
+    if c.include_ancillary && !anc_altered {
+        for (k, v) in &signed_data {
+            honest.insert(k.clone(), v.clone());
+        }
+    }
+    World {
+        target,
+        world,
+        msg,
+        range,
+        requested,
+        options: DownloadUnpackOptions {
+            allow_override: c.allow_override,
+            include_ancillary: c.include_ancillary,
+            max_parallel_downloads: 1,
+        },
+        vouched,
+        honest,
+        carried,
+        anc_must_fail: c.include_ancillary && anc_altered,
+        anc_listed: anc_paths,
+        ancillary_vk,
+        genesis_vk,
+        magic,
+        splice_preserved,
+    }
+}
+
+// ------------------------------------------------------------------------------------------------
+// running the real client
+// ------------------------------------------------------------------------------------------------
+
+thread_local! {
+    /// memoized clients (one per configured ancillary verification key): building one loads the system
+    /// certificate store twice, which would dominate the cost of a case. They hold no per-download state.
+    static CLIENTS: std::cell::RefCell<BTreeMap<String, Arc<CardanoDatabaseClient>>> = const { std::cell::RefCell::new(BTreeMap::new()) };
+}
+
+fn client_for(w: &World) -> Result<Arc<CardanoDatabaseClient>, String> {
+    CLIENTS.with(|cache| {
+        if let Some(c) = cache.borrow().get(&w.ancillary_vk) {
+            return Ok(c.clone());
+        }
+        let logger = slog::Logger::root(slog::Discard, slog::o!());
+        let downloader =
+            HttpFileDownloader::new(FeedbackSender::new(&[]), logger.clone()).map_err(|e| format!("HARNESS downloader: {e:#}"))?;
+        let client = ClientBuilder::new(AggregatorDiscoveryType::Url("http://127.0.0.1:9/aggregator".to_string()))
+            .set_genesis_verification_key(GenesisVerificationKey::JsonHex(w.genesis_vk.clone()))
+            .with_http_file_downloader(Arc::new(downloader))
+            .set_ancillary_verification_key(w.ancillary_vk.clone())
+            .with_logger(logger)
+            .build()
+            .map_err(|e| format!("HARNESS client build: {e:#}"))?;
+        let c = client.cardano_database_v2();
+        cache.borrow_mut().insert(w.ancillary_vk.clone(), c.clone());
+        Ok(c)
+    })
+}
+
+fn run_client(w: &World) -> Result<Result<(), String>, String> {
+    catch(|| {
+        let rt = tokio::runtime::Builder::new_current_thread().enable_all().build().expect("runtime");
+        let res = rt.block_on(async {
+            let client = client_for(w)?;
+            client.download_unpack(&w.msg, &w.range, &w.target, w.options).await.map_err(|e| format!("{e:#}"))
+        });
+        // dropping the runtime waits for the blocking unpack threads that may still be running after an abort
+        drop(rt);
+        res
+    })
+}
+
+// ------------------------------------------------------------------------------------------------
+// oracle
+// ------------------------------------------------------------------------------------------------
+
+struct Verdicts {
+    list: Vec<(String, String)>,
+}
+
+impl Verdicts {
+    fn add(&mut self, key: &str, what: String) {
+        self.list.push((key.to_string(), what));
+    }
+}
+
+fn is_requested_immutable(path: &str, req: Option<(u64, u64)>) -> bool {
+    let Some(name) = path.strip_prefix("immutable/") else { return false };
+    let Some((lo, hi)) = req else { return false };
+    (lo..=hi).any(|n| trio(n).iter().any(|t| t == name))
+}
+
+fn looks_like_immutable_file(path: &str) -> bool {
+    let Some(name) = path.strip_prefix("immutable/") else { return false };
+    let Some((num, ext)) = name.split_once('.') else { return false };
+    num.len() >= 5 && num.bytes().all(|b| b.is_ascii_digit()) && EXTS.contains(&ext)
+}
+
+fn judge(
+    c: &Case,
+    w: &World,
+    before: &BTreeMap<String, Node>,
+    after: &BTreeMap<String, Node>,
+    world_before: &BTreeMap<String, Node>,
+    world_after: &BTreeMap<String, Node>,
+    result: &Result<(), String>,
+    v: &mut Verdicts,
+) {
+    let ok = result.is_ok();
+    let allowed = |path: &str, node: &Node| -> bool {
+        if is_requested_immutable(path, w.requested) && !matches!(node, Node::Dir) {
+            return true;
+        }
+        if ok {
+            if path == "clean" && *node == Node::File(sha_hex(b"")) {
+                return true;
+            }
+            if let Some(m) = w.magic {
+                if path == "protocolMagicId" && *node == Node::File(sha_hex(m.as_bytes())) {
+                    return true;
+                }
+            }
+        }
+        if let Node::File(h) = node {
+            if w.vouched.contains(&(path.to_string(), h.clone())) {
+                return true;
+            }
+        }
+        false
+    };
+    let attribute = |path: &str| -> &'static str {
+        let top = path.split('/').next().unwrap_or("");
+        if top.starts_with("ancillary-") && !before.contains_key(top) {
+            return "ancillary-temp-dir-left-behind";
+        }
+        match w.carried.get(path) {
+            Some(Origin::Imm) => {
+                if looks_like_immutable_file(path) {
+                    "immutable-file-outside-requested-range"
+                } else if path.starts_with("immutable/") {
+                    "unexpected-entry-in-immutable-dir-kept"
+                } else {
+                    "immutable-archive-writes-outside-immutable-dir"
+                }
+            }
+            Some(Origin::Anc) => {
+                if w.anc_must_fail {
+                    if matches!(c.anc.alter, Alter::MergeAdjacent(_)) && w.splice_preserved {
+                        "manifest-entry-splicing-accepted"
+                    } else {
+                        "ancillary-file-kept-after-failed-verification"
+                    }
+                } else if !c.include_ancillary {
+                    "ancillary-file-without-ancillary-option"
+                } else {
+                    "unlisted-ancillary-file-kept"
+                }
+            }
+            None => "unexpected-file-in-target",
+        }
+    };
+
+    // (1) everything new or changed must be allowed
+    for (path, node) in after {
+        if matches!(node, Node::Dir) {
+            continue;
+        }
+        if before.get(path) == Some(node) {
+            continue;
+        }
+        if allowed(path, node) {
+            continue;
+        }
+        let was = before.get(path);
+        let key = attribute(path);
+        v.add(
+            key,
+            format!(
+                "after download_unpack (result {}) the target holds `{path}` = {node:?} (before: {was:?}) which is neither a requested immutable file, a bootstrap marker nor vouched by the signed manifest",
+                if ok { "Ok".to_string() } else { format!("Err({})", short(result)) }
+            ),
+        );
+    }
+    // (2) pre-existing user files are untouched
+    for (path, node) in before {
+        if matches!(node, Node::Dir) {
+            continue;
+        }
+        match after.get(path) {
+            Some(n) if n == node => {}
+            Some(n) if allowed(path, n) => {}
+            Some(_) => {} // already reported by (1)
+            None => {
+                v.add("user-file-removed", format!("pre-existing `{path}` ({node:?}) no longer exists after download_unpack"));
+            }
+        }
+    }
+    // (3) nothing outside of the target directory
+    if world_before != world_after {
+        let mut diff = vec![];
+        for (p, n) in world_after {
+            if world_before.get(p) != Some(n) {
+                diff.push(format!("{p}={n:?}"));
+            }
+        }
+        for p in world_before.keys() {
+            if !world_after.contains_key(p) {
+                diff.push(format!("{p} removed"));
+            }
+        }
+        v.add("file-written-outside-target-dir", format!("the directory around the target changed: {}", diff.join(", ")));
+    }
+}
+
+fn short(r: &Result<(), String>) -> String {
+    match r {
+        Ok(()) => "Ok".into(),
+        Err(e) => e.chars().take(160).collect(),
+    }
+}
+
+fn order_sensitive(c: &Case) -> bool {
+    !c.faults.is_empty()
+        || c.anc.alter != Alter::None
+        || c.imm_extras.iter().any(|e| {
+            matches!(
+                e.kind,
+                Extra::ImmNumber(..)
+                    | Extra::ShadowVouched(_)
+                    | Extra::SymlinkDirThenWrite
+                    | Extra::SymlinkLedgerDivert
+                    | Extra::HardlinkUser
+                    | Extra::SymlinkNamedImm
+            )
+        })
+}
+
+fn case_fn(c: &Case, known: &BTreeSet<String>) -> Report {
+    let mut rep = Report::new();
+    let scratch = Scratch::new("c19");
+    let mut w = build_world(c, scratch.path(), &mut rep);
+    let sequential = order_sensitive(c);
+    w.options.max_parallel_downloads = if sequential { 1 } else { c.parallel.max(1) as usize };
+
+    rep.label(if c.include_ancillary { "option:ancillary" } else { "option:no-ancillary" });
+    rep.label(match c.range {
+        RangeSpec::Full => "range:full",
+        RangeSpec::From(_) => "range:from",
+        RangeSpec::UpTo(_) => "range:upto",
+        RangeSpec::Inner(..) => "range:inner",
+        RangeSpec::Invalid => "range:invalid",
+    });
+    for f in &c.faults {
+        rep.label(match f {
+            Fault::MissingImm(_) | Fault::MissingAnc => "fault:missing-location",
+            Fault::CorruptImm(..) | Fault::CorruptAnc(_) | Fault::TruncTarImm(_) | Fault::TruncTarAnc => "fault:corrupt-archive",
+            Fault::MoveBlockedByDir | Fault::LedgerIsFile => "fault:move-blocked",
+        });
+    }
+    if c.mirror2 != 0 {
+        rep.label("two-mirrors");
+    }
+
+    let before = walk(&w.target);
+    let world_before: BTreeMap<String, Node> =
+        walk(&w.world).into_iter().filter(|(p, _)| p != "db" && !p.starts_with("db/")).collect();
+
+    let result = match run_client(&w) {
+        Ok(r) => r,
+        Err(panic) => {
+            rep.label("client-panicked");
+            Err(format!("panic: {panic}"))
+        }
+    };
+    if let Err(e) = &result {
+        if e.starts_with("HARNESS") {
+            rep.violation("harness-error", e.clone());
+            return rep;
+        }
+    }
+    let after = walk(&w.target);
+    let world_after: BTreeMap<String, Node> =
+        walk(&w.world).into_iter().filter(|(p, _)| p != "db" && !p.starts_with("db/")).collect();
+
+    rep.label(if result.is_ok() { "result:ok" } else { "result:err" });
+    if result.is_err() && before == after {
+        rep.label("result:err-target-unchanged");
+    }
+    if c.include_ancillary && w.anc_listed.iter().any(|p| p.starts_with("ledger/") && after.contains_key(p) && !before.contains_key(p)) {
+        rep.label("anc-files-restored");
+    }
+
+    let mut v = Verdicts { list: vec![] };
+    judge(c, &w, &before, &after, &world_before, &world_after, &result, &mut v);
+
+    // positive control
+    let transport_only = c.faults.iter().all(|f| !matches!(f, Fault::MoveBlockedByDir | Fault::LedgerIsFile));
+    let refusal_possible = !c.allow_override
+        && (before.contains_key("immutable")
+            || (c.include_ancillary && (before.contains_key("ledger") || before.contains_key("volatile"))));
+    let compatible = match w.requested {
+        None => false,
+        Some((_, hi)) => !c.include_ancillary || hi == c.beacon.clamp(1, 6) as u64,
+    };
+    let honest_case = c.imm_extras.is_empty()
+        && c.anc.alter == Alter::None
+        && c.anc.extras.is_empty()
+        && transport_only
+        && (c.faults.is_empty() || c.mirror2 != 0);
+    if honest_case && compatible && !refusal_possible {
+        rep.label("honest-expected-ok");
+        match &result {
+            Err(e) => v.add("honest-download-failed", format!("a download from honest mirrors failed: {}", e.chars().take(300).collect::<String>())),
+            Ok(()) => {
+                let mut expected: BTreeMap<String, Node> = before.clone();
+                for (p, h) in &w.honest {
+                    expected.insert(p.clone(), Node::File(h.clone()));
+                }
+                expected.insert("clean".into(), Node::File(sha_hex(b"")));
+                if let Some(m) = w.magic {
+                    expected.insert("protocolMagicId".into(), Node::File(sha_hex(m.as_bytes())));
+                }
+                let files = |m: &BTreeMap<String, Node>| -> BTreeMap<String, Node> {
+                    m.iter().filter(|(_, n)| !matches!(n, Node::Dir)).map(|(k, n)| (k.clone(), n.clone())).collect()
+                };
+                let (e, a) = (files(&expected), files(&after));
+                if e != a {
+                    let missing: Vec<_> = e.iter().filter(|(k, n)| a.get(*k) != Some(n)).map(|(k, _)| k.clone()).collect();
+                    let extra: Vec<_> = a.iter().filter(|(k, n)| e.get(*k) != Some(n)).map(|(k, _)| k.clone()).collect();
+                    v.add("honest-download-wrong-files", format!("honest download: missing/different {missing:?}, unexpected {extra:?}"));
+                } else {
+                    rep.label("honest-ok");
+                }
+            }
+        }
+    }
+    if !compatible || refusal_possible {
+        rep.label("request-refusable");
+    }
+    if w.anc_must_fail && result.is_err() {
+        rep.label("anc-verify-failed");
+    }
+    if c.include_ancillary && !w.anc_must_fail && result.is_ok() {
+        rep.label("anc-verified-ok");
+    }
+
+    // non-trivial: >= 1 out-of-policy entry, or a manifest alteration, or an injected fault
+    if !c.imm_extras.is_empty() || c.anc.alter != Alter::None || !c.anc.extras.is_empty() || !c.faults.is_empty() {
+        let mut kinds: Vec<String> = c.imm_extras.iter().map(|e| format!("{:?}{}", e.kind, if e.first { "<" } else { ">" })).collect();
+        kinds.sort();
+        rep.nontrivial(format!(
+            "b{} {:?} anc={} ov={} m2={} pre={:?} imm={kinds:?} alter={:?} ax={:?} mf={} faults={:?} L{}",
+            c.beacon, c.range, c.include_ancillary, c.allow_override, c.mirror2, c.pre, c.anc.alter, c.anc.extras,
+            c.anc.manifest_first, c.faults, c.anc.layout % 3
+        ));
+    }
+
+    // report the first violation that is not an open known finding (keep exploring around known ones)
+    if let Some((k, what)) = v.list.iter().find(|(k, _)| !known.contains(k)).or(v.list.first()) {
+        let all: BTreeSet<&str> = v.list.iter().map(|(k, _)| k.as_str()).collect();
+        rep.violation(k.clone(), format!("{what} [all violated classes in this case: {all:?}] case={c:?}"));
+    }
+    rep
+}
+
+// ------------------------------------------------------------------------------------------------
+// strategies
+// ------------------------------------------------------------------------------------------------
+
+fn range_strategy() -> impl Strategy<Value = RangeSpec> {
+    prop_oneof![
+        3 => Just(RangeSpec::Full),
+        3 => any::<u16>().prop_map(RangeSpec::From),
+        2 => any::<u16>().prop_map(RangeSpec::UpTo),
+        3 => (any::<u16>(), any::<u16>()).prop_map(|(a, b)| RangeSpec::Inner(a, b)),
+    ]
+}
+
+fn pre_strategy(conflicting: bool) -> impl Strategy<Value = Vec<Pre>> {
+    let safe = prop_oneof![Just(Pre::TopNote), Just(Pre::UserDir), Just(Pre::MarkerClean), Just(Pre::MarkerMagic)];
+    let any_pre = prop_oneof![
+        Just(Pre::TopNote),
+        Just(Pre::UserDir),
+        Just(Pre::MarkerClean),
+        Just(Pre::MarkerMagic),
+        Just(Pre::ImmInRange),
+        Just(Pre::ImmOutside),
+        Just(Pre::ImmOdd),
+        Just(Pre::LedgerOld),
+        Just(Pre::VolatileOld),
+    ];
+    if conflicting {
+        prop::collection::vec(any_pre, 0..4).boxed()
+    } else {
+        prop::collection::vec(safe, 0..3).boxed()
+    }
+}
+
+fn extra_kind_strategy() -> impl Strategy<Value = Extra> {
+    prop_oneof![
+        3 => Just(Extra::LedgerFlat),
+        2 => Just(Extra::LedgerNested),
+        3 => Just(Extra::Volatile),
+        2 => Just(Extra::TopFile),
+        1 => Just(Extra::TopDirFile),
+        2 => Just(Extra::NestedImm),
+        2 => Just(Extra::ImmOdd),
+        2 => Just(Extra::MarkerClean),
+        2 => Just(Extra::MarkerMagic),
+        1 => Just(Extra::MarkerDir),
+        1 => Just(Extra::ManifestName),
+        5 => (any::<u16>(), 0u8..3).prop_map(|(n, x)| Extra::ImmNumber(n, x)),
+        2 => any::<u16>().prop_map(Extra::ShadowVouched),
+        2 => Just(Extra::AbsWorld),
+        2 => Just(Extra::DotDot),
+        1 => Just(Extra::DotDotDeep),
+        1 => Just(Extra::SymlinkOut),
+        1 => Just(Extra::SymlinkNamedImm),
+        1 => Just(Extra::SymlinkDirThenWrite),
+        2 => Just(Extra::SymlinkLedgerDivert),
+        1 => Just(Extra::HardlinkUser),
+    ]
+}
+
+fn imm_extras_strategy(max: usize) -> impl Strategy<Value = Vec<ImmExtra>> {
+    prop::collection::vec(
+        (any::<u16>(), extra_kind_strategy(), any::<bool>()).prop_map(|(arch, kind, first)| ImmExtra { arch, kind, first }),
+        0..=max,
+    )
+}
+
+fn alter_strategy() -> impl Strategy<Value = Alter> {
+    prop_oneof![
+        3 => any::<u16>().prop_map(Alter::ContentChanged),
+        2 => any::<u16>().prop_map(Alter::ContentChangedHashUpdated),
+        2 => (40000u16..=65535).prop_map(Alter::ContentChanged),
+        2 => Just(Alter::EntryAdded),
+        2 => any::<u16>().prop_map(Alter::EntryRemoved),
+        1 => any::<u16>().prop_map(Alter::PathRenamed),
+        2 => any::<u16>().prop_map(Alter::SigFlip),
+        2 => Just(Alter::SigRemoved),
+        2 => any::<bool>().prop_map(Alter::SigOtherKey),
+        2 => Just(Alter::ManifestMissing),
+        1 => Just(Alter::ManifestGarbage),
+        1 => any::<u16>().prop_map(Alter::FileMissing),
+        2 => any::<u16>().prop_map(Alter::MergeAdjacent),
+    ]
+}
+
+fn anc_extras_strategy() -> impl Strategy<Value = Vec<AncExtra>> {
+    prop::collection::vec(
+        prop_oneof![
+            Just(AncExtra::LedgerEvil),
+            Just(AncExtra::Volatile),
+            Just(AncExtra::Top),
+            Just(AncExtra::MarkerClean),
+            Just(AncExtra::ImmInRange),
+            Just(AncExtra::Abs),
+            Just(AncExtra::DotDot),
+            Just(AncExtra::SymlinkOut),
+            Just(AncExtra::NestedManifest),
+        ],
+        0..3,
+    )
+}
+
+fn anc_strategy(altered: bool, with_extras: bool) -> impl Strategy<Value = AncSpec> {
+    let alter = if altered { alter_strategy().boxed() } else { Just(Alter::None).boxed() };
+    let extras = if with_extras { anc_extras_strategy().boxed() } else { Just(vec![]).boxed() };
+    (0u8..3, alter, extras, any::<bool>()).prop_map(|(layout, alter, extras, manifest_first)| AncSpec { layout, alter, extras, manifest_first })
+}
+
+fn fault_strategy() -> impl Strategy<Value = Fault> {
+    prop_oneof![
+        3 => any::<u16>().prop_map(Fault::MissingImm),
+        3 => (any::<u16>(), any::<u16>()).prop_map(|(j, c)| Fault::CorruptImm(j, c)),
+        3 => any::<u16>().prop_map(Fault::TruncTarImm),
+        2 => Just(Fault::MissingAnc),
+        2 => any::<u16>().prop_map(Fault::CorruptAnc),
+        2 => Just(Fault::TruncTarAnc),
+        2 => Just(Fault::MoveBlockedByDir),
+        1 => Just(Fault::LedgerIsFile),
+    ]
+}
+
+#[derive(Clone, Copy, PartialEq)]
+enum Flavor {
+    Honest,
+    Archives,
+    Faults,
+}
+
+fn case_strategy(flavor: Flavor) -> impl Strategy<Value = Case> {
+    let base = (
+        any::<u64>(),
+        1u8..=5,
+        range_strategy(),
+        prop::bool::weighted(0.6),
+        prop::bool::weighted(0.6),
+        any::<bool>(),
+        prop_oneof![Just(1u8), Just(2u8), Just(20u8)],
+        0u8..4,
+    );
+    base.prop_flat_map(move |(seed, beacon, range0, include_ancillary, allow_override, zstd, parallel, network)| {
+        // most ancillary downloads use a range that contains the beacon (the only compatible ones)
+        let range = (Just(range0), 0u8..10).prop_map(move |(r, roll)| {
+            if include_ancillary && roll < 8 {
+                match r {
+                    RangeSpec::UpTo(_) => RangeSpec::Full,
+                    RangeSpec::Inner(a, _) => RangeSpec::From(a),
+                    other => other,
+                }
+            } else if roll == 9 && flavor == Flavor::Honest {
+                RangeSpec::Invalid
+            } else {
+                r
+            }
+        });
+        let (n_extras, altered, anc_extras) = match flavor {
+            Flavor::Honest => (0usize, false, false),
+            Flavor::Archives => (3, true, true),
+            Flavor::Faults => (1, false, true),
+        };
+        let altered_s = if altered { prop::bool::weighted(0.55).boxed() } else { Just(false).boxed() };
+        let faults = match flavor {
+            Flavor::Faults => prop::collection::vec(fault_strategy(), 1..3).boxed(),
+            _ => Just(vec![]).boxed(),
+        };
+        let mirror2 = match flavor {
+            Flavor::Faults => (0u8..3).boxed(),
+            _ => prop_oneof![4 => Just(0u8), 1 => Just(1u8)].boxed(),
+        };
+        (range, pre_strategy(allow_override), imm_extras_strategy(n_extras), altered_s, faults, mirror2).prop_flat_map(
+            move |(range, pre, imm_extras, altered, faults, mirror2)| {
+                let pre = pre.clone();
+                let imm_extras = imm_extras.clone();
+                let faults = faults.clone();
+                let range = range.clone();
+                anc_strategy(altered, anc_extras).prop_map(move |anc| Case {
+                    seed,
+                    beacon,
+                    range: range.clone(),
+                    include_ancillary,
+                    allow_override,
+                    zstd,
+                    parallel,
+                    network,
+                    mirror2,
+                    pre: pre.clone(),
+                    imm_extras: imm_extras.clone(),
+                    anc,
+                    faults: faults.clone(),
+                })
+            },
+        )
+    })
+}
+
+// ------------------------------------------------------------------------------------------------
+// entry point
+// ------------------------------------------------------------------------------------------------
+
+const KEYS: [&str; 12] = [
+    "immutable-archive-writes-outside-immutable-dir",
+    "immutable-file-outside-requested-range",
+    "unexpected-entry-in-immutable-dir-kept",
+    "manifest-entry-splicing-accepted",
+    "ancillary-file-kept-after-failed-verification",
+    "ancillary-file-without-ancillary-option",
+    "unlisted-ancillary-file-kept",
+    "ancillary-temp-dir-left-behind",
+    "unexpected-file-in-target",
+    "user-file-removed",
+    "file-written-outside-target-dir",
+    "honest-download-failed",
+];
 
 pub fn run(args: &Args) -> i32 {
-    let check = Check::new("C19", "exploration", args);
-    check.inconclusive("check not implemented yet".into());
+    let mut check = Check::new("C19", "exploration", args);
+    check.shrink_iters(150);
+    check
+        .rule(
+            "real download_unpack against harness-built mirrors; a case is non-trivial when an archive carries >= 1 \
+             out-of-policy entry, or the ancillary manifest/archive is altered after signing, or a fault is injected \
+             (missing location, corrupt/truncated archive, blocked final move); distinct = distinct (range, options, \
+             entry kinds + positions, alteration, faults, mirrors, pre-existing files) shapes",
+        )
+        .assume("the snapshot message itself (locations, compression algorithm, beacon, network) is as an honest aggregator builds it; only the bytes behind the locations are adversarial")
+        .assume("file:// locations share the whole unpack path with http locations (HttpFileDownloader::download_unpack); the HTTP streaming branch is not exercised")
+        .assume("the harness' signer stands for the holder of the ancillary signing key: it signs exactly one honest manifest per case (sha256 over path||hash pairs, as the aggregator does)")
+        .assume("content of requested immutable files is out of scope here (verified later against the certified Merkle root); the oracle is name-based for them")
+        .assume("empty directories are not counted as files");
+    for l in [
+        "honest-ok",
+        "option:ancillary",
+        "option:no-ancillary",
+        "range:full",
+        "range:from",
+        "range:upto",
+        "range:inner",
+        "pre-existing-files",
+        "imm-extra:ledger",
+        "imm-extra:volatile",
+        "imm-extra:top-level",
+        "imm-extra:nested-immutable",
+        "imm-extra:marker",
+        "imm-extra:out-of-range",
+        "imm-extra:beyond-beacon",
+        "imm-extra:abs-or-dotdot",
+        "imm-extra:link",
+        "anc-extra",
+        "anc-alter:content",
+        "anc-alter:content-in-subdir",
+        "anc-alter:entries",
+        "anc-alter:signature",
+        "anc-alter:missing-manifest",
+        "anc-verified-ok",
+        "anc-verify-failed",
+        "anc-files-restored",
+        "fault:missing-location",
+        "fault:corrupt-archive",
+        "fault:move-blocked",
+        "two-mirrors",
+    ] {
+        check.require_label(l);
+    }
+    let known: BTreeSet<String> = KEYS.iter().filter(|k| check.has_open_known(k)).map(|k| k.to_string()).collect();
+    let t = check.tier;
+    check.section("honest", || case_strategy(Flavor::Honest), t.pick(240, 6_000), |c| case_fn(c, &known));
+    check.section("archives", || case_strategy(Flavor::Archives), t.pick(900, 30_000), |c| case_fn(c, &known));
+    check.section("faults", || case_strategy(Flavor::Faults), t.pick(480, 14_000), |c| case_fn(c, &known));
     check.finish()
 }
